@@ -20,6 +20,11 @@ Definition adv_growth_room : N := 2 * (1 + 255 * 16).
 Definition adv_fixed_room : N := 16 + 1 + 255 + 8 + 1 + 3.
 Definition max_route_bytes_per_adv : N := max_payload - adv_growth_room - adv_fixed_room.
 
+(** maxDisplayNameLen and getLocalDisplayName's cut: the first 255 bytes of the
+    configured name (a byte cut, possibly inside a multi-byte character) *)
+Definition max_name_len : N := 255.
+Definition cut_name (cfg : bytes) : bytes := firstN max_name_len cfg.
+
 (** routeSize := 2 + len(r.Prefix) + 2 *)
 Definition route_wire_size (r : Route) : N := let '(_, (_, (pre, _))) := r in 2 + lenN pre + 2.
 
@@ -161,7 +166,8 @@ Definition entry_ok (e : entry) : bool :=
 Inductive acase :=
 | CAnn (origin name : bytes) (seq1 : N) (routes : list Route) (path seenby : list bytes) (obs : list bytes)
 | CRep (origin name : bytes) (seq : N) (routes : list Route) (path : list bytes) (obs : list bytes)
-| CFwd (local origin name : bytes) (seq : N) (routes : list Route) (path seenby : list bytes) (obs : bytes).
+| CFwd (local origin name : bytes) (seq : N) (routes : list Route) (path seenby : list bytes) (obs : bytes)
+| CName (cfg obs : bytes).
 
 Definition acase_ok (c : acase) : bool :=
   match c with
@@ -171,6 +177,7 @@ Definition acase_ok (c : acase) : bool :=
       list_eqb (option_eqb bytes_eqb) (replay_foreign o n s rs p) (map Some obs)
   | CFwd l o n s rs p sb obs =>
       option_eqb bytes_eqb (reflood l o n s rs p sb) (Some obs)
+  | CName cfg obs => bytes_eqb (cut_name cfg) obs
   end.
 Fixpoint amismatches_from (i : N) (cs : list acase) : list N :=
   match cs with
